@@ -40,6 +40,8 @@ pub fn sig(bus: &Bus, a: u8) -> Vec<i64> {
         *b.digital_output1() as i64,
         *b.digital_output2() as i64,
         rb,
+        b.dasr().bits() as i64,
+        b.daisr().bits() as i64,
     ]
 }
 
